@@ -20,11 +20,60 @@ pub trait SimIo: AsyncRead + AsyncWrite + Send + Unpin + 'static {}
 impl<T: AsyncRead + AsyncWrite + Send + Unpin + 'static> SimIo for T {}
 
 /// Stand-in for `tokio::net::TcpStream`.
-pub struct TcpStream(Box<dyn SimIo>);
+pub struct TcpStream(Box<dyn SimIo>, Option<(SocketAddr, SocketAddr)>);
 
 impl TcpStream {
     pub fn new<T: SimIo>(io: T) -> TcpStream {
-        TcpStream(Box::new(io))
+        TcpStream(Box::new(io), None)
+    }
+
+    /// Like `new`, also recording the (local, peer) addresses reported by
+    /// the accessor methods below.
+    pub fn with_addrs<T: SimIo>(
+        io: T,
+        local: SocketAddr,
+        peer: SocketAddr,
+    ) -> TcpStream {
+        TcpStream(Box::new(io), Some((local, peer)))
+    }
+
+    // The socket accessors server code most commonly reaches for, so that a
+    // change using them still builds under simulation.  Options are accepted
+    // and ignored.
+
+    pub fn local_addr(&self) -> io::Result<SocketAddr> {
+        self.1.map(|a| a.0).ok_or_else(|| io::ErrorKind::NotConnected.into())
+    }
+
+    pub fn peer_addr(&self) -> io::Result<SocketAddr> {
+        self.1.map(|a| a.1).ok_or_else(|| io::ErrorKind::NotConnected.into())
+    }
+
+    pub fn set_nodelay(&self, _nodelay: bool) -> io::Result<()> {
+        Ok(())
+    }
+
+    pub fn nodelay(&self) -> io::Result<bool> {
+        Ok(true)
+    }
+
+    pub fn set_ttl(&self, _ttl: u32) -> io::Result<()> {
+        Ok(())
+    }
+
+    pub fn ttl(&self) -> io::Result<u32> {
+        Ok(64)
+    }
+
+    pub fn set_linger(
+        &self,
+        _dur: Option<std::time::Duration>,
+    ) -> io::Result<()> {
+        Ok(())
+    }
+
+    pub fn linger(&self) -> io::Result<Option<std::time::Duration>> {
+        Ok(None)
     }
 }
 
@@ -121,6 +170,21 @@ impl TcpListener {
 
     pub async fn accept(&self) -> io::Result<(TcpStream, SocketAddr)> {
         std::future::poll_fn(|cx| self.0.poll_accept(cx)).await
+    }
+
+    pub fn poll_accept(
+        &self,
+        cx: &mut Context<'_>,
+    ) -> Poll<io::Result<(TcpStream, SocketAddr)>> {
+        self.0.poll_accept(cx)
+    }
+
+    pub fn set_ttl(&self, _ttl: u32) -> io::Result<()> {
+        Ok(())
+    }
+
+    pub fn ttl(&self) -> io::Result<u32> {
+        Ok(64)
     }
 }
 
